@@ -792,6 +792,17 @@ fn generate(seed: u64, tier: Tier, em: &mut Emitter) {
             &["hist", "ties"],
         );
     }
+    // ids that cannot be part of a file name: the save fails and nothing changes
+    let long_id = "q".repeat(240);
+    em.case(
+        "hist",
+        json!([1, true, ["checkpoint_x_4.bin", "checkpoint_y_1_9.bin"],
+               [["save", "x/y_1", 5], ["save", "x", 6], ["save", long_id, 1], ["save", "a\u{0}", 2],
+                ["save", "", 3], ["clear", "x/y_1"], ["clear", long_id]],
+               ["x", "x/y_1", "y_1", ""]]),
+        true,
+        &["hist", "uncreatable"],
+    );
     em.case(
         "hist",
         json!([1, false, ["checkpoint_p_4.bin"], [["save", "p", 5], ["save", "p", 3]], ["p"]]),
